@@ -25,7 +25,7 @@ type L2OracleHandler struct {
 	oracleKeeper        types.OracleKeeper
 	extendedCommitCodec connectcodec.ExtendedCommitCodec
 	veCodec             connectcodec.VoteExtensionCodec
-	voteAggregator      connectaggregator.VoteAggregator
+	logger              log.Logger
 }
 
 func NewL2OracleHandler(
@@ -44,16 +44,30 @@ func NewL2OracleHandler(
 			connectcodec.NewDefaultVoteExtensionCodec(),
 			connectcodec.NewZLibCompressor(),
 		),
-		voteAggregator: connectaggregator.NewDefaultVoteAggregator(
-			logger,
-			voteweighted.MedianFromContext(
-				logger,
-				k.HostValidatorStore,
-				voteweighted.DefaultPowerThreshold,
-			),
-			currencypair.NewHashCurrencyPairStrategy(oracleKeeper),
-		),
+		logger: logger,
 	}
+}
+
+// newVoteAggregator returns a vote aggregator with its own currency-pair strategy.
+//
+// The strategy caches currency-pair ids in process memory (per block height) and pays for a
+// walk over all currency pairs on every cache miss. With one long-lived instance the gas used
+// by an oracle update would depend on what this process executed before at the same height and
+// on the iteration order of the vote-extension maps. A fresh strategy per update whose cache is
+// filled once up front makes the gas a function of the state and the transaction only.
+func (k L2OracleHandler) newVoteAggregator(ctx sdk.Context) connectaggregator.VoteAggregator {
+	cpStrategy := currencypair.NewHashCurrencyPairStrategy(k.oracleKeeper)
+	_, _ = cpStrategy.FromID(ctx, 0) // fills the id cache
+
+	return connectaggregator.NewDefaultVoteAggregator(
+		k.logger,
+		voteweighted.MedianFromContext(
+			k.logger,
+			k.HostValidatorStore,
+			voteweighted.DefaultPowerThreshold,
+		),
+		cpStrategy,
+	)
 }
 
 func (k L2OracleHandler) UpdateOracle(ctx context.Context, height uint64, extCommitBz []byte) error {
@@ -93,7 +107,7 @@ func (k L2OracleHandler) UpdateOracle(ctx context.Context, height uint64, extCom
 	if err != nil {
 		return err
 	}
-	prices, err := k.voteAggregator.AggregateOracleVotes(sdkCtx, votes)
+	prices, err := k.newVoteAggregator(sdkCtx).AggregateOracleVotes(sdkCtx, votes)
 	if err != nil {
 		return err
 	}
